@@ -13,8 +13,12 @@ import (
 // C09-O2: offset and fetch interval through the real build(): the selector is
 // asked for [start-o-r, end-o]; the value at T covers [T-o-r, T-o]; the step is
 // stamped T.
-func verifC09Offset(N int, S int64) {
+func verifC09Offset(N int, S int64, stepPool bool) {
 	start, step, rng, off := vsymInt64("start"), vsymInt64("step"), vsymInt64("range"), vsymInt64("offset")
+	if stepPool {
+		// a concrete step, so that code rounding instants to the step is followed precisely
+		step = []int64{7, 1e9, 60e9}[vsymChoice("stepPool", 3)]
+	}
 	vsymAssume(start >= 0)
 	vsymAssume(start < verifMaxInstant)
 	vsymAssume(step > 0)
@@ -79,5 +83,6 @@ func verifC09Offset(N int, S int64) {
 	vsymReach("C09_offset")
 }
 
-func VerifHarness_C09_Offset_2x2() { verifC09Offset(2, 2) }
-func VerifHarness_C09_Offset_3x2() { verifC09Offset(3, 2) }
+func VerifHarness_C09_Offset_2x2() { verifC09Offset(2, 2, false) }
+func VerifHarness_C09_Offset_3x2() { verifC09Offset(3, 2, false) }
+func VerifHarness_C09_OffsetStepPool_2x2() { verifC09Offset(2, 2, true) }
